@@ -44,27 +44,31 @@ def specFrames {σ : Type} (dec : Bytes → σ → Option (Frame × σ)) : Bytes
 
 /-! ### 2. retry collector, one test name at a time -/
 
-/-- Deliveries for test name `n`, given what is currently held back for `n`. -/
-def deliveriesFor (n : String) : Option Trace → List COp → List Trace
-  | _, [] => []
-  | w, .complete t :: ops =>
+/-- One operation of the collector as seen by test name `n`: `w` is the trace currently held
+back for `n`; result: what is held back afterwards, what is delivered now. -/
+def stepFor (n : String) (w : Option Trace) : COp → Option Trace × List Trace
+  | .complete t =>
     if t.name == n then
-      if t.err.retryable then deliveriesFor n (some t) ops
+      if t.err.retryable then (some t, [])           -- refused: hold it back, wait for a retry
       else match w with
-        | some _ => deliveriesFor n w ops
-        | none => t :: deliveriesFor n w ops
-    else deliveriesFor n w ops
-  | w, .newAttempt m :: ops => if m == n then deliveriesFor n none ops else deliveriesFor n w ops
-  | w, .timesUp m :: ops =>
-    if m == n then
-      match w with
-      | some t => t :: deliveriesFor n none ops
-      | none => deliveriesFor n none ops
-    else deliveriesFor n w ops
-  | w, .cancel :: ops =>
-    match w with
-    | some t => t :: deliveriesFor n none ops
-    | none => deliveriesFor n none ops
+        | some _ => (w, [])
+        | none => (none, [t])
+    else (w, [])
+  | .newAttempt m => if m == n then (none, []) else (w, [])   -- the retry started: forget the refused attempt
+  | .timesUp m => if m == n then (none, w.toList) else (w, [])
+  | .cancel => (none, w.toList)
+
+/-- Deliveries for test name `n`, given what is currently held back for `n`. -/
+def deliveriesFor (n : String) (w : Option Trace) : List COp → List Trace
+  | [] => []
+  | op :: ops => (stepFor n w op).2 ++ deliveriesFor n (stepFor n w op).1 ops
+
+/-- does the operation concern test name `n` at all -/
+def concerns (n : String) : COp → Bool
+  | .complete t => t.name == n
+  | .newAttempt m => m == n
+  | .timesUp m => m == n
+  | .cancel => true
 
 /-! ### 3. streams -/
 
